@@ -17,7 +17,8 @@ void vp_reach(const char *label);   // vacuity witness: must be reachable
 void vp_spawn(void (*fn)(void *), void *arg);
 void vp_atomic_begin(void);
 void vp_atomic_end(void);
-void vp_shared(const void *p, size_t n); // declare object shared for race instrumentation
+void vp_shared(const void *p, size_t n); // declare object shared for race (lockset) instrumentation
+void vp_thread(unsigned t);              // set the current logical thread (1,2,...) for the lockset discipline
 void vp_point(const char *name);
 bool vp_feq(float a, float b);   // symbolic: exact equality in the engine's number semantics; native replay: relative tolerance
 bool vp_deq(double a, double b);
